@@ -303,6 +303,23 @@ static int c14WaitMt(int epfd, struct epoll_event* ev, int max, int timeout)
   return n;
 }
 
+// after the threaded run: bring flag and event descriptor back to "no interrupt pending" (the second
+// thread may have finished its interrupt() after run() had already returned, or between the two writes)
+static int c14WaitDrain(int epfd, struct epoll_event* ev, int max, int)
+{
+  if(++c14WaitCalls > 50) { fprintf(stderr, "c14: drain run() does not return\n"); _exit(3); }
+  struct epoll_event tmp[64];
+  int n = ipRealEpollWait(epfd, tmp, 64, 0), m = 0;
+  for(int i = 0; i < n && m < max; ++i)
+    if(tmp[i].data.ptr == 0) ev[m++] = tmp[i];
+  if(m > 0 && c14WaitCalls == 1) return m;       // a pending or stale signal: let run() look at it
+  c14Srv->interrupt();
+  n = ipRealEpollWait(epfd, tmp, 64, 0); m = 0;
+  for(int i = 0; i < n && m < max; ++i)
+    if(tmp[i].data.ptr == 0) ev[m++] = tmp[i];
+  return m;
+}
+
 // ---- life cycle ------------------------------------------------------------------------------
 static void c14Teardown()
 {
@@ -524,6 +541,11 @@ static bool c14Op(HxLine& l)
     if(pthread_create(&th, 0, c14MtThread, 0)) ipFail("pthread_create");
     c14Srv->run();
     pthread_join(th, 0);
+    size_t keep = c14LogLen;
+    c14WaitCalls = 0;
+    ipWaitHook = c14WaitDrain;
+    c14Srv->run();
+    if(c14LogLen != keep) ipFail("callbacks during the drain run");
     ipWaitHook = 0;
     c14LogAdd("ret", 0, 0);
     c14Log[c14LogLen] = 0;
